@@ -718,6 +718,13 @@ func (fv *FV) verify() (err error) {
 		}
 	}
 	fv.numberLoops(fd.Body)
+	if fv.fc != nil {
+		for _, g := range fv.fc.Ghosts {
+			if (strings.HasPrefix(g.Anchor, "after ") || strings.HasPrefix(g.Anchor, "before ")) && fv.ghostLoops[g] == nil {
+				fv.fail(fd.Pos(), "ghost statement anchored at %s: no such statement in %s", g.Anchor, fv.fi.FullName())
+			}
+		}
+	}
 	fv.funcCands = fv.collectFuncCands(fd.Body)
 	fv.entry = st.clone()
 	fv.emitAxioms(st)
